@@ -6,6 +6,7 @@
 import PV.Model
 import PV.MatrixModel
 import PV.Unique
+import PV.UniqueNH
 
 namespace PV.MatrixModel
 open PV PV.Model Part Matrix MvPowerSeries Filtered Blocks
@@ -19,7 +20,7 @@ theorem gapped (μ : Masks ι) (en : Energies μ K) :
     Gapped (lift (σ := σ) (coeffUnperturbed en)).H0 := by
   letI := coeffBlocks (K := K) μ
   intro n v hv hs hc
-  exact gapped_lift (σ := σ) (coeffUnperturbed en) (fun x h1 h2 => coeff_gap en x h1 h2) n v hv hs hc
+  exact gapped_lift (σ := σ) (coeffUnperturbed en).toCoeffUnperturbedNH (fun x h1 h2 => coeff_gap en.toEnergiesNH x h1 h2) n v hv hs hc
 
 /-- C01, C02, C03 (incl. uniqueness) for block series of matrices -/
 theorem main_theorems (μ : Masks ι) (en : Energies μ K) :
@@ -33,5 +34,32 @@ theorem main_theorems (μ : Masks ι) (en : Energies μ K) :
   have hl := code_least_action e
   exact ⟨C01_similarity e, C02_unit_left e, C02_unit_right e, C02_adjoint e, C02_Htilde_star e, hl.elim, hl.gauge,
     fun U Ht h => C03_unique (gapped μ en) e h⟩
+
+
+/-- the gap condition for (possibly complex) energies -/
+theorem gappedNH (μ : Masks ι) (en : EnergiesNH μ K) :
+    letI := coeffBlocks (K := K) μ
+    Gapped (liftNH (σ := σ) (coeffUnperturbedNH en)).H0 := by
+  letI := coeffBlocks (K := K) μ
+  intro n v hv hs hc
+  exact gapped_lift (σ := σ) (coeffUnperturbedNH en) (fun x h1 h2 => coeff_gap en x h1 h2) n v hv hs hc
+
+/-- C05 for block series of matrices with complex energies: the inverse relations and the gauge hold unconditionally; the
+    similarity relation, the elimination and uniqueness hold under the commutation hypothesis (known finding F-NH) -/
+theorem nh_theorems (μ : Masks ι) (en : EnergiesNH μ K) :
+    letI := coeffBlocks (K := K) μ
+    ∀ e : NonHermEqs (MvPowerSeries σ (Matrix ι ι K)) (liftNH (coeffUnperturbedNH en)),
+      e.Ud * e.U = 1 ∧ e.U * e.Ud = 1 ∧ Sel (e.U - e.Ud) = 0 ∧
+      ((liftNH (σ := σ) (coeffUnperturbedNH en)).H0 * (P kc e.Up + P kn e.Up) = (P kc e.Up + P kn e.Up) * (liftNH (σ := σ) (coeffUnperturbedNH en)).H0 →
+        e.Ud * e.H * e.U = e.H_tilde ∧ Rem e.H_tilde = 0 ∧
+        (∀ U V Ht : MvPowerSeries σ (Matrix ι ι K), LeastActionNH e.H U V Ht → U = e.U ∧ V = e.Ud ∧ Ht = e.H_tilde)) := by
+  letI := coeffBlocks (K := K) μ
+  intro e
+  refine ⟨NH.C05_inverse_left e, NH.C05_inverse_right e, ?_, ?_⟩
+  · unfold Sel
+    rw [NH.C05_gauge e kc (Or.inl rfl), NH.C05_gauge e kn (Or.inr rfl), add_zero]
+  · intro hk
+    have hl := NH.code_least_action e hk
+    exact ⟨hl.sim, hl.elim, fun U V Ht h => nh_unique _ (gappedNH μ en) (NH.H_sub_H0_mem e) h hl⟩
 
 end PV.MatrixModel
